@@ -7,7 +7,9 @@ use std::time::Duration;
 use std::{io, ptr};
 
 #[cfg(feature = "io_timeout")]
-use super::{timeout_handler, TimerList};
+use super::{remove_timer, timeout_handler, TimerHandle, TimerList};
+#[cfg(feature = "io_timeout")]
+use crate::coroutine_impl::CoroutineImpl;
 use super::{EventData, IoData};
 use crate::scheduler::Scheduler;
 #[cfg(feature = "io_timeout")]
@@ -50,6 +52,10 @@ struct SingleSelector {
     kqfd: OwnedFd,
     #[cfg(feature = "io_timeout")]
     timer_list: TimerList,
+    // the io timers that are cancelled by other threads, together with the
+    // coroutines that wait for it, only this selector thread can remove them
+    #[cfg(feature = "io_timeout")]
+    del_timers: Queue<(TimerHandle, CoroutineImpl)>,
     free_ev: Queue<Arc<EventData>>,
 }
 
@@ -83,6 +89,8 @@ impl SingleSelector {
             free_ev: Queue::new(),
             #[cfg(feature = "io_timeout")]
             timer_list: TimerList::new(),
+            #[cfg(feature = "io_timeout")]
+            del_timers: Queue::new(),
         })
     }
 }
@@ -175,6 +183,16 @@ impl Selector {
                 h.remove()
             });
 
+            #[cfg(feature = "work_steal")]
+            scheduler.schedule_with_id(co, id);
+            #[cfg(not(feature = "work_steal"))]
+            crate::coroutine_impl::run_coroutine(co);
+        }
+
+        // remove the timers that other threads asked for and schedule their coroutines
+        #[cfg(feature = "io_timeout")]
+        while let Some((h, co)) = single_selector.del_timers.pop() {
+            remove_timer(h);
             #[cfg(feature = "work_steal")]
             scheduler.schedule_with_id(co, id);
             #[cfg(not(feature = "work_steal"))]
@@ -337,5 +355,14 @@ impl Selector {
             self.wakeup(id);
         }
         io.timer.borrow_mut().replace(h);
+    }
+
+    // pass the timer handle of a finished io to the selector thread `id` that owns
+    // its timer list, the coroutine is scheduled there after the timer is removed
+    #[inline]
+    #[cfg(feature = "io_timeout")]
+    pub fn del_io_timer(&self, id: usize, h: TimerHandle, co: CoroutineImpl) {
+        self.vec[id].del_timers.push((h, co));
+        self.wakeup(id);
     }
 }
